@@ -423,6 +423,34 @@ func ruleR35(c *Ctx) {
 			}
 		}
 	}
+	// ---- minimum/maximum answer "no leaf" only for an empty reference: a non-empty (sub)tree
+	// always has a least and a greatest leaf, so any other nil result makes Minimum/Maximum
+	// disagree with the first/last element of iteration
+	for _, name := range []string{"minimum", "maximum"} {
+		u := m.ByName[name]
+		if u == nil {
+			continue
+		}
+		fl := c.e.flow(u)
+		fl.walk(func(n ast.Node, fs *FactSet, stmt ast.Node, b *cfg.Block) {
+			rs, ok := n.(*ast.ReturnStmt)
+			if !ok || len(rs.Results) != 1 || !info.Types[rs.Results[0]].IsNil() {
+				return
+			}
+			key := name + " returns no leaf only for an empty reference"
+			okNil := false
+			fs.eqFacts(func(l, r string, val bool, f *Fact) {
+				if val && ((strings.HasSuffix(l, ".pointer") && r == "nil") || (strings.HasSuffix(r, ".pointer") && l == "nil")) {
+					okNil = true
+				}
+			})
+			if okNil {
+				c.r.ok("R35", key, m.pos(rs.Pos()), "the nil result is returned under <reference>.pointer == nil", "C05", "C02")
+			} else {
+				c.r.bad("R35", key, m.pos(rs.Pos()), name+" reports \"no leaf\" for a reference that is not known to be empty (a fan-out counter that reads 0, a missing child …): Minimum/Maximum then report an empty tree or a wrong extreme while iteration still yields keys", "C05", "C02")
+			}
+		})
+	}
 	for _, tk := range m.Trees {
 		for meth, helper := range map[string]string{"All": "all", "Backward": "backward"} {
 			u := tk.Methods[meth]
